@@ -1,4 +1,4 @@
-#!/usr/bin/env python3
+#!/usr/bin/env python3-vt
 """Regenerates /verif/MANIFEST.json from the table below (and validates it)."""
 import json, os, sys
 
